@@ -43,12 +43,18 @@ extern "C" void harness(void)
 #ifdef BFINMASK
   for (unsigned s = 0; s < NB; ++s) if (!(((BFINMASK) >> s) & 1)) vs_assume(B.fin[s] == ((((BFINFIX) >> s) & 1) != 0));
 #endif
-  ExplicitTreeAut a, b; A.build(a); B.build(b);
-  const bool sim = SEL & 1; const unsigned alg = SEL >> 1;
 #ifndef DIRECT
 #define DIRECT 0
 #endif
-  bool verdict = prepared_inclusion<ExplicitTreeAut>(a, b, alg == 0, alg >= 2, alg == 3, sim, DIRECT);
+  ExplicitTreeAut a, b; A.build(a);
+#if DIRECT == 2      // B's states are numbered NA.. (dense and disjoint from A's), nothing is sanitised: memory-safety queries (C20)
+  { unsigned ren[NB]; for (unsigned s = 0; s < NB; ++s) ren[s] = NA + s; B.build(b, ren); }
+  vs_allow_throw(1);   // the library may refuse such operands by a standard exception (a state the relation does not know): not a memory error
+#else
+  B.build(b);
+#endif
+  const bool sim = SEL & 1; const unsigned alg = SEL >> 1;
+  bool verdict = prepared_inclusion<ExplicitTreeAut>(a, b, alg == 0, alg >= 2, alg == 3, sim, DIRECT, NA + NB);
   bool expect = U::included<NA, NB>(A, B);
 #ifdef VS_SELFTEST_1
   expect = expect && !(A.pres[0] && !B.pres[0]);   // seeded wrong oracle
